@@ -22,7 +22,7 @@ STUBS = ['max/min inside the module: if-then-else terms instead of forks (same v
          'deterministic stubs recording their calls', 'PIL/matplotlib plotting not reached (visualize=None)']
 ASSUMPTIONS = ['fixed modules lie inside the die initially', 'one iteration from an arbitrary state is the inductive step for any iteration count']
 NOT_DECIDED = ['finiteness (NaN/overflow) of the centres through the float iteration', 'two or more unrolled iterations', 'visualisation']
-MUST_REACH = ['layout', 'force', 'force-wl', 'fp-fixed']
+MUST_REACH = ['layout', 'force', 'force-wl', 'force-radius', 'fp-fixed']
 
 
 def setup():
@@ -63,6 +63,10 @@ def cases(tier):
     for free in ([0, 1, 2, 3], [4, 7, 10, 11]) + (([2, 5, 6, 8, 9], [0, 3, 6, 9, 11]) if tier == 'thorough' else ()):
         for pre in (False, True):
             cs.append(dict(kind='force-wl', pre_read=pre, free=free))
+    # the REAL total_intersection_area on a design with symbolic areas, as the first thing done and after the same function was
+    # used on another design whose modules have the same names
+    for hist in (False, True):
+        cs.append(dict(kind='force-radius', history=hist))
     cs.append(dict(kind='fp-fixed'))
     return cs
 
@@ -139,6 +143,8 @@ def body(I, case):
         return body_force(I, case)
     if case['kind'] == 'force-wl':
         return body_force_wl(I, case)
+    if case['kind'] == 'force-radius':
+        return body_force_radius(I, case)
     return body_fp(I, case)
 
 
@@ -220,6 +226,22 @@ def body_force(I, case):
     I.prove('final-layout-on-the-original-die', calls[-1][0] is die and out is die)
     I.prove('chosen-has-the-smallest-cost', k >= 0 and And(*[tot[k] <= t for t in tot]))
     I.prove('first-among-ties', k >= 0 and And(*[tot[j] > tot[k] for j in range(k)]))
+
+
+def body_force_radius(I, case):
+    symx.UF_NONLINEAR = False
+
+    def mk(a0, a1, c):
+        net = Netlist({'Modules': {'M0': {'area': a0, 'center': list(c)}, 'M1': {'area': a1, 'center': list(c)}}, 'Nets': [['M0', 'M1']]})
+        return Die({'width': 10.0, 'height': 8.0}, net)
+    if case['history']:
+        FR.total_intersection_area(mk(1.0, 4.0, (3.0, 3.0)))   # an earlier, unrelated design (same module names, other areas)
+    a0, a1 = I.real('a0', 0.5, 20), I.real('a1', 0.5, 20)
+    got = FR.total_intersection_area(mk(a0, a1, (5.0, 4.0)))   # concentric discs: each ordered pair overlaps in the smaller disc
+    I.reached('force-radius')
+    want = 2 * symx.Min(a0, a1)
+    # (compared with a slack of 1e-6: values remembered from the history are binary64 numbers, not exact reals)
+    I.prove('overlap-term-of-the-cost-is-the-overlap-of-this-design', And(got - want <= 1e-6, want - got <= 1e-6), side=True)
 
 
 def body_force_wl(I, case):
